@@ -37,7 +37,11 @@ TREES = {
     "r(a)": node("", node("a")),
     "r(a,b)": node("", node("a"), node("b")),
     "r(a(g))": node("", node("a", node("g"))),
+    # thorough tier only
+    "r(a,b,c)": node("", node("a"), node("b"), node("c")),
+    "r(a(g),b)": node("", node("a", node("g")), node("b")),
 }
+QUICK_TREES = ["r", "r(a)", "r(a,b)", "r(a(g))"]
 
 
 def build(program: dict) -> dict:
@@ -115,11 +119,11 @@ class C15(E1Check):
                 "and injected at every loop iteration (deviation bound 1); distinct = distinct traces")
 
     def bounds(self, tier: str) -> dict:
-        return {"trees": list(TREES), "deviation_bound": 1 if tier == "quick" else 2}
+        return {"trees": QUICK_TREES if tier == "quick" else list(TREES), "deviation_bound": "1 (signal / time-out / crash endings), 0 (others)" if tier == "quick" else "3 (signal / time-out / crash endings), 2 (others)"}
 
     def units(self, tier: str, seed: int) -> list:
         progs = []
-        for tree in TREES:
+        for tree in (QUICK_TREES if tier == "quick" else list(TREES)):
             ps = [p for p, _ in paths(TREES[tree])]
             for svc in (False, True):
                 if svc and tree == "r":
@@ -163,14 +167,15 @@ class C15(E1Check):
     def bound(self, tier: str, program: Any) -> int:
         k = program["end"]["kind"]
         if k in ("signal", "timeout", "svc-crash"):
-            return 1 if tier == "quick" else 2
-        return 0 if tier == "quick" else 1
+            return 1 if tier == "quick" else 3
+        return 0 if tier == "quick" else 2
 
     def max_execs(self, tier: str, program: Any) -> int:
         return 6000 if tier == "quick" else 120000
 
     def hash_modes(self, tier: str, program: Any) -> tuple:
-        return (0,)
+        # thorough: both iteration orders of the task sets that anyio walks when it delivers a cancellation
+        return (0,) if tier == "quick" else (0, 1)
 
     def backends_for(self, tier: str, program: Any) -> tuple:
         # trio: same programs; signals are real ones raised with signal.raise_signal() at quiescent points only
